@@ -69,22 +69,34 @@ const maxDeliver = 100000
 // readSession drives one of the four read APIs over the scripted transport
 // until it reports an error, returning what was delivered.
 func readSession(api string, max int, chunks [][]byte, inline func(bool) bool) (events []wsEvent, finalErr error, problem string) {
-	ms := memstream.New(copyChunks(chunks))
+	events, finalErr, problem, _, _ = readSessionOn(api, max, max+16, chunks, inline)
+	return
+}
+
+// readSessionOn is readSession that also hands back the stream and transport
+// so that the caller can inspect what happened after the first error.
+func readSessionOn(api string, max, bufLen int, chunks [][]byte, inline func(bool) bool) (events []wsEvent, finalErr error, problem string, s *websocket.Stream, ms *memstream.Stream) {
+	defer func() {
+		if r := recover(); r != nil {
+			problem = fmt.Sprintf("%s panicked: %v", api, r)
+		}
+	}()
+	ms = memstream.New(copyChunks(chunks))
 	ms.Inline = inline
 	s, err := newAttached(max, ms)
 	if err != nil {
-		return nil, nil, "attach: " + err.Error()
+		return nil, nil, "attach: " + err.Error(), nil, nil
 	}
 	s.SetControlCallback(func(mt websocket.MessageType, payload []byte) {
 		events = append(events, wsEvent{Kind: "ctl", Op: byte(mt), Fin: true, Payload: append([]byte(nil), payload...)})
 	})
-	buf := make([]byte, max+16)
+	buf := make([]byte, bufLen)
 	for step := 0; step < 10000; step++ {
 		switch api {
 		case "NextMessage":
 			mt, n, err := s.NextMessage(buf)
 			if err != nil {
-				return events, err, ""
+				return events, err, "", s, ms
 			}
 			events = append(events, wsEvent{Kind: "msg", Op: byte(mt), Fin: true, Payload: append([]byte(nil), buf[:n]...)})
 		case "AsyncNextMessage":
@@ -99,26 +111,26 @@ func readSession(api string, max int, chunks [][]byte, inline func(bool) bool) (
 			})
 			for d := 0; calls == 0; d++ {
 				if !ms.Deliver() {
-					return events, nil, "AsyncNextMessage: callback not invoked and no transport operation outstanding"
+					return events, nil, "AsyncNextMessage: callback not invoked and no transport operation outstanding", s, ms
 				}
 				if d > maxDeliver {
-					return events, nil, "AsyncNextMessage: no completion after many transport deliveries"
+					return events, nil, "AsyncNextMessage: no completion after many transport deliveries", s, ms
 				}
 			}
 			if calls != 1 {
-				return events, nil, fmt.Sprintf("AsyncNextMessage callback invoked %d times", calls)
+				return events, nil, fmt.Sprintf("AsyncNextMessage callback invoked %d times", calls), s, ms
 			}
 			if rerr != nil {
-				return events, rerr, ""
+				return events, rerr, "", s, ms
 			}
 		case "NextFrame":
 			f, err := s.NextFrame()
 			if err != nil {
-				return events, err, ""
+				return events, err, "", s, ms
 			}
 			events = append(events, wsEvent{Kind: "frame", Op: byte(f.Opcode()), Fin: f.IsFIN(), Payload: append([]byte(nil), f.Payload()...)})
 			if f.PayloadLength() != len(f.Payload()) {
-				return events, nil, fmt.Sprintf("NextFrame: PayloadLength()=%d but Payload() has %d bytes", f.PayloadLength(), len(f.Payload()))
+				return events, nil, fmt.Sprintf("NextFrame: PayloadLength()=%d but Payload() has %d bytes", f.PayloadLength(), len(f.Payload())), s, ms
 			}
 		case "AsyncNextFrame":
 			calls := 0
@@ -132,21 +144,21 @@ func readSession(api string, max int, chunks [][]byte, inline func(bool) bool) (
 			})
 			for d := 0; calls == 0; d++ {
 				if !ms.Deliver() {
-					return events, nil, "AsyncNextFrame: callback not invoked and no transport operation outstanding"
+					return events, nil, "AsyncNextFrame: callback not invoked and no transport operation outstanding", s, ms
 				}
 				if d > maxDeliver {
-					return events, nil, "AsyncNextFrame: no completion after many transport deliveries"
+					return events, nil, "AsyncNextFrame: no completion after many transport deliveries", s, ms
 				}
 			}
 			if calls != 1 {
-				return events, nil, fmt.Sprintf("AsyncNextFrame callback invoked %d times", calls)
+				return events, nil, fmt.Sprintf("AsyncNextFrame callback invoked %d times", calls), s, ms
 			}
 			if rerr != nil {
-				return events, rerr, ""
+				return events, rerr, "", s, ms
 			}
 		}
 	}
-	return events, nil, "session did not end"
+	return events, nil, "session did not end", s, ms
 }
 
 var readAPIs = []string{"NextFrame", "AsyncNextFrame", "NextMessage", "AsyncNextMessage"}
